@@ -172,8 +172,6 @@ theorem due_runs_dispatched_partial (E : Env) (hincr : Incr E.nx) (ops : List (L
   rw [hacts] at hq ⊢
   exact quiescent_due_runs_wait_for_busy_worker E hincr acts hfr hq
 
-/-! ### non-vacuity and sensitivity -/
-
 /-- A concrete oracle: every schedule fires every 10 s; one worker. -/
 def E10 : Env := { nx := fun _ t => some (t + 10), wk := fun _ => 0 }
 
@@ -181,6 +179,29 @@ theorem E10_incr : Incr E10.nx := by
   intro sc t t' h
   simp only [E10, Option.some.injEq] at h
   omega
+
+/-! ### sub-second offsets (finding subsecond-offset-truncated) -/
+
+/-- All clauses above speak about `off`, the whole-second `Item.Offset` the scheduler stores. For the EXACT offset
+`off` s + `frac` ms they carry over when the sub-second part is not positive … -/
+theorem never_early_exact_of_nonpositive_fraction (E : Env) (hincr : Incr E.nx) (acts : List Act)
+    (post tr : List Ev) (id : Nat) (occ runAt : Int)
+    (h : (runActs E {} acts).trace = post ++ Ev.start id occ runAt :: tr) :
+    ∃ sc off last, epochOf id tr = some (sc, off, last) ∧
+      ∀ frac : Int, frac ≤ 0 → (occ + off) * 1000 + frac ≤ lastClock tr * 1000 := by
+  obtain ⟨sc, off, last, h1, _, _, h4, _⟩ := every_run_is_the_next_due_occurrence E hincr acts post tr id occ runAt h
+  exact ⟨sc, off, last, h1, fun frac hf => by omega⟩
+
+/-- … and FAIL for a positive one (counterexample, replayed on the real code by
+corpus/C17/finding-subsecond-offset-truncated.ops): offset 2.5 s, occurrence 10 is due at 12.5 s, a second task
+(offset 2 s) wakes the loop at 12 s and occurrence 10 of task 1 is handed to the executor with the clock at 12 s. -/
+theorem subsecond_offset_runs_early :
+    let s := runActs E10 {} [.sched 1 0 2 0 500, .sched 2 1 2 0 0, .adv 12, .fire, .consume, .iter []]
+    Ev.start 1 10 12 ∈ s.trace ∧ s.now = 12 ∧ earlyBySubsecond 2 500 10 s.now = true ∧
+      (10 + 2) * 1000 + 500 > s.now * 1000 := by
+  decide
+
+/-! ### non-vacuity and sensitivity -/
 
 /-- The hypotheses are satisfiable and the theorems are not about empty histories: two tasks sharing the single
 worker, a clock jump over several occurrences, a failing run, a Release while in flight — the history contains
